@@ -134,6 +134,12 @@ def run(ctx):
                 ch.array[f] = np.array(vals, dtype=dtype).reshape(dims)
                 src[(nme, f)] = [ch.array[f].flatten()[j] for j in range(count)]
             fa.append(ch)
+        # a frame array populated for the request only (FrameArray.init_arrays_partial, what the RP66V1 converter does): the channels
+        # that are not going to be written hold no frames at all
+        if req and nrows % 3 == 0:
+            for ci, ch in enumerate(fa.channels):
+                if ci > 0 and ch.ident not in req:
+                    ch.init_array(0)
         out = io.StringIO()
         case = dict(names=names, request=req, expected=expected, method=method, width=width, fmt=fmt, frames=nfr,
                     dtypes={c.ident: str(c.array.dtype) for c in fa.channels}, dims={c.ident: c.dimensions for c in fa.channels})
